@@ -15,11 +15,12 @@ for _tr in ("rb", "avl"):
                               bound="any valid %s tree of height <= 3 (<= 7 nodes), one %s, case %d of 3 by the position of the key relative to the root; no notifiers, structural obligations only" % (_tr, _op, _sp),
                               functions=[]))
 UNITS += tu.ROT_UNITS
+UNITS += tu.STEP_UNITS
 REQUIRE_CONFIGURED = ["ptree.c", "ptree-bst.c", "ptree-rb.c", "ptree-avl.c"]
-TECHNIQUE = "BOUNDED stand-in (not an unbounded proof): CBMC on the real ptree*.c from every well-formed tree up to a height bound (BST/ptree.c: 3 quick, 4 thorough; RB/AVL full units: 2 quick, 3 thorough; RB/AVL structural units: 3 in both tiers), one symbolic operation, full re-validation; unwinding assertions on.  UNBOUNDED part: the six rotation functions (loop-free) on a symbolic node window with subtrees of any size and ghost height (units rot_*)"
+TECHNIQUE = "BOUNDED stand-in (not an unbounded proof): CBMC on the real ptree*.c from every well-formed tree up to a height bound (BST/ptree.c: 3 quick, 4 thorough; RB/AVL full units: 2 quick, 3 thorough; RB/AVL structural units: 3 in both tiers), one symbolic operation, full re-validation; unwinding assertions on.  UNBOUNDED part: the six rotation functions (loop-free) on a symbolic node window with subtrees of any size and ghost height (units rot_*), and one step of the real AVL retrace loops on a symbolic window (units avl_*_step_*)"
 LEVEL_TEXT = ("C13 focus: after every insert/remove the red-black invariant (root black, no red-red, equal black height) resp. the AVL invariant (stored balance factor = height difference, within -1..1) holds. Heap-shape induction is not expressible in CBMC contracts (no inductive heap predicates), so the per-operation step is checked from EVERY well-formed tree "
               "within the height bound (symbolic shape, keys, values, colours/balance factors, parent links, with and without notifiers, allocation failure included) rather than for all sizes: "
               "one symbolic insert/remove/lookup/foreach(any stop point)/clear on the real code, then the whole result is re-validated. Since every reachable tree is well-formed, "
-              "this is invariant preservation for all operation sequences whose trees stay within the bound. Counted as bounded model checking, never as proved. Exception, unbounded: units rot_* verify pp_tree_rb_rotate_left/right and pp_tree_avl_rotate_left/right/left_right/right_left for every window (hanging subtrees of any size with ghost heights, any node above): exact post-shape = in-order sequence preserved, all parent links, root pointer / child slot above, frame; AVL: stored balance factors equal the real height differences afterwards, under the preconditions of the call sites.")
+              "this is invariant preservation for all operation sequences whose trees stay within the bound. Counted as bounded model checking, never as proved. Exception, unbounded: units rot_* verify pp_tree_rb_rotate_left/right and pp_tree_avl_rotate_left/right/left_right/right_left for every window (hanging subtrees of any size with ghost heights, any node above): exact post-shape = in-order sequence preserved, all parent links, root pointer / child slot above, frame; AVL: stored balance factors equal the real height differences afterwards, under the preconditions of the call sites. Units avl_insert_step_* / avl_remove_step_*_case0: one step of the real pp_tree_avl_balance_insert/_remove at a node P for subtrees of any height (window opaque below, P the root where the loop would go on): all stored factors = real height differences within -1..1 afterwards, window height kept exactly when the loop stops; the induction over the path is a meta-argument; the rotation cases of the removal step are not registered (solver memory).")
 LEVEL_NOTE = ("Bounded: tree height (see bound per unit in the evidence). The *_h3_case* units (quick and thorough) check search order, parent links, count and the balance invariant from every valid RB/AVL tree of height <= 3 without notifiers; the full units (all obligations) reach height 3 only in the thorough tier. Keys are integers under the identity order (every finite total order embeds); comparator user data is passed through "
               "but not interpreted. The logarithmic-depth corollaries of the AVL/red-black invariants are textbook mathematics, not machine-checked. Trusted: allocator model.")
